@@ -14,7 +14,7 @@ DOC = {
     'rules': {
         'C17.R1': 'arg::split: every &s[a..b] is indexed by byte offsets (unit lint: a counter incremented by 1 per char is CHARS)',
         'C17.R2': 'SPECIAL_CHARS is a superset of | & ; < > ( ) $ ` \\ " space tab * ? [ # ~ = % { }',
-        'C17.R3': "quote(): branch 1 iff any char < 0x20, == 0x7f, == U+FFFD or == '\\''; branch 2 iff any char in SPECIAL_CHARS -> '...'; else bare",
+        'C17.R3': "quote(): branch 1 iff any char < 0x20, == 0x7f, == U+FFFD or == '\\''; branch 2 iff any char in SPECIAL_CHARS -> '...'; else bare - and bare only for a non-empty argument",
         'C17.R5': 'splitter/quoter agreement: every character arg::split treats specially (delimiters, quotes, escapes, comment) forces quoting in arg::quote; split uses no character-class predicate that quote does not mirror',
         'C17.R4': "$'..' encode = to_stfu8 then replace(' -> \\'); decode = replace(\\' -> ') then from_stfu8",
     },
@@ -162,6 +162,23 @@ def r3(ctx, lib):
     if br1:
         tt_, ft_ = switch_targets_bool(br1)
         ctx.check(b.dominates(ft_, order[1].bb), rule, b.path + '|order', order[1].where(), 'SPECIAL_CHARS are considered only when branch 1 does not apply', 'branch order changed')
+    # the bare branch must not be taken for the empty string: an empty word printed bare vanishes from the command line
+    bare = [c for c in b.calls(r'ToString>::to_string$|ToString::to_string$|String::from$|Cow<.*>::into_owned$|::to_owned$') if backslice(b, [c.args[0]]).has_call(r'to_string_lossy$')]
+    if not bare:
+        ctx.missing(rule, 'the bare return of quote()', b.where())
+    else:
+        okE = False
+        for e in b.calls(r'::is_empty$'):
+            if not (backslice(b, [e.args[0]]).has_call(r'to_string_lossy$') or 1 in backslice(b, [e.args[0]]).params):
+                continue
+            for (bbx, idx, what) in b.operand_uses(e.dest[0]):
+                if what[0] == 'switch':
+                    tt_, ft_ = switch_targets_bool(what[1])
+                    if ft_ is not None and all(b.dominates(ft_, c.bb) for c in bare):
+                        okE = True
+        ctx.check(okE, rule, b.path + '|empty-is-quoted', bare[0].where(), 'the bare form is used only for a non-empty argument (emptiness test on the false edge)',
+                  "quote(\"\") returns the empty string: the argument vanishes from the `# Command:` line of the text report, every later argument shifts by one when the header is parsed again "
+                  "(`group --isolate --exclude '' d1 d2` is read back as --exclude d1 with the single root d2), and a shell would drop it as well")
     # both operate on the lossy string of the same argument
     for a in anys:
         ctx.check(1 in backslice(b, [a.args[0]]).params, rule, b.path + '|input-%d' % a.line, a.where(), 'tests the characters of the argument', 'tests something else than the argument')
